@@ -157,7 +157,7 @@ def correspondence(ctx, extra=False):
     torch.set_num_threads(2)
     thorough = ctx.tier == "thorough" or extra
     quick = not thorough
-    counts = {"single": 10, "batch": 4, "multi": 4} if quick else {"single": 24, "batch": 8, "multi": 8}
+    counts = {"single": 14, "batch": 5, "multi": 5} if quick else {"single": 24, "batch": 8, "multi": 8}
     if os.environ.get("VERIF_C16_CASES"):
         a, b_, c_ = [int(v) for v in os.environ["VERIF_C16_CASES"].split(",")]
         counts = {"single": a, "batch": b_, "multi": c_}
